@@ -979,6 +979,15 @@ func (d *Pegnetd) ApplyTransactionBlock(sqlTx *sql.Tx, eblock *factom.EBlock) er
 		} else if isReplay {
 			continue
 		}
+		// An entry that is still pending or was rejected has no relation rows yet, but it has
+		// been seen: writing the same entry to the chain again must not be processed again
+		// (its history and holding rows already exist).
+		isKnown, err := d.Pegnet.IsKnownTransaction(sqlTx, txBatch.Entry.Hash)
+		if err != nil {
+			return err
+		} else if isKnown {
+			continue
+		}
 		// At this point, we know that the transaction batch is valid and able to be executed.
 
 		if err = d.Pegnet.InsertTransactionHistoryTxBatch(sqlTx, blockorder, txBatch, eblock.Height); err != nil {
